@@ -115,8 +115,7 @@ class FindIdentifiers(_ast_util.NodeVisitor):
 
     def visit_ListComp(self, node):
         if self.in_function:
-            self._visit_generators(node)
-            self.visit(node.elt)
+            self._visit_comprehension(node, node.elt)
         else:
             self.generic_visit(node)
 
@@ -124,20 +123,24 @@ class FindIdentifiers(_ast_util.NodeVisitor):
 
     def visit_DictComp(self, node):
         if self.in_function:
-            self._visit_generators(node)
-            self.visit(node.key)
-            self.visit(node.value)
+            self._visit_comprehension(node, node.key, node.value)
         else:
             self.generic_visit(node)
 
-    def _visit_generators(self, node):
+    def _visit_comprehension(self, node, *elements):
         # the loop variables are bound before the conditions and the
-        # element expression, which may use names from outside as well
+        # element expressions, which may use names from outside as well;
+        # they are bound for the comprehension only
+        local_ident_stack = self.local_ident_stack
+        self.local_ident_stack = set(local_ident_stack)
         for comp in node.generators:
             self.visit(comp.iter)
             self.visit(comp.target)
             for condition in comp.ifs:
                 self.visit(condition)
+        for element in elements:
+            self.visit(element)
+        self.local_ident_stack = local_ident_stack
 
     def _expand_tuples(self, args):
         for arg in args:
